@@ -7,7 +7,15 @@ import (
 	"encoding/hex"
 	"fmt"
 	"github.com/storacha/go-ucanto/core/dag/blockstore"
+	"github.com/storacha/go-ucanto/core/delegation"
+	"github.com/storacha/go-ucanto/core/invocation"
+	"github.com/storacha/go-ucanto/core/message"
+	"github.com/storacha/go-ucanto/transport/car/request"
+	"github.com/storacha/go-ucanto/transport/car/response"
+	thttp "github.com/storacha/go-ucanto/transport/http"
+	"github.com/storacha/go-ucanto/ucan"
 	"io"
+	"iter"
 	"math/rand"
 	"strings"
 
@@ -253,6 +261,7 @@ func genC12(cfg Config, emit Emit) error {
 	if cfg.Thorough() {
 		na, maxb = 1500, 24
 	}
+	genCarAlign(emit, cfg.Thorough())
 	for i := 0; i < na; i++ {
 		roots, blocks := genArchive(cfg.Rng, maxb)
 		rj, bj := fmtArchive(roots, blocks)
@@ -425,4 +434,110 @@ func execCarDec(a []string) Result {
 		o = "ok"
 	}
 	return Result{Impl: t, Oracle: o}
+}
+
+// ---- large archives whose section boundaries fall on round sizes, through the request and response decoders ----
+
+func init() {
+	execs["caralign"] = guard(execCarAlign)
+}
+
+func genCarAlign(emit Emit, thorough bool) {
+	sizes := []int{1 << 20, 4 << 20, 8 << 20, 16 << 20}
+	if thorough {
+		sizes = append(sizes, 2<<20, 32<<20, 64<<20)
+	}
+	for _, n := range sizes {
+		for _, via := range []string{"request", "response", "car"} {
+			emit("caralign", []string{itoa(n), via}, "aligned-boundary/"+via, true)
+		}
+	}
+}
+
+// execCarAlign: a well-formed agent message whose CAR has a section boundary exactly at args[0] bytes, with
+// further blocks after it, decoded through the request decoder, the response decoder or car.Decode: every block
+// that was written must be delivered. Impl = "blocks=<delivered>/<written>"
+func execCarAlign(a []string) Result {
+	pools()
+	target := atoi(a[0])
+	svc, alice := edPool[0], edPool[1]
+	inv, err := invocation.Invoke(alice, svc, ucan.NewCapability("test/run", alice.DID().String(), NbMap{F: map[string]any{}}), delegation.WithNoExpiration(), delegation.WithNonce("align"))
+	if err != nil {
+		return Result{Impl: "blocks=0/0", Args: []string{a[0], a[1], "0"}}
+	}
+	msg, err := message.Build([]invocation.Invocation{inv}, nil)
+	if err != nil {
+		return Result{Impl: "blocks=0/0", Args: []string{a[0], a[1], "0"}}
+	}
+	var pre []ipld.Block
+	for b, err := range msg.Blocks() {
+		if err == nil {
+			pre = append(pre, b)
+		}
+	}
+	roots := []ipld.Link{msg.Root().Link()}
+	base := len(carOf(roots, pre))
+	// pad blocks of at most 24 MiB each; the last one ends exactly at the target
+	var pads []ipld.Block
+	remaining := target - base
+	for remaining > 24<<20+64 {
+		d := make([]byte, 24<<20)
+		d[0] = byte(len(pads) + 1)
+		h, _ := mh.Sum(d, mh.SHA2_256, -1)
+		pads = append(pads, block.NewBlock(cidlink.Link{Cid: cid.NewCidV1(0x55, h)}, d))
+		remaining = target - len(carOf(roots, append(append([]ipld.Block{}, pre...), pads...)))
+	}
+	vl := 4
+	if remaining-40 < 1<<21 {
+		vl = 3
+	}
+	if remaining-36-vl < 1<<14 {
+		return Result{Impl: "blocks=0/0", Args: []string{a[0], a[1], "0"}}
+	}
+	d := make([]byte, remaining-36-vl)
+	h, _ := mh.Sum(d, mh.SHA2_256, -1)
+	pads = append(pads, block.NewBlock(cidlink.Link{Cid: cid.NewCidV1(0x55, h)}, d))
+	all := append(append([]ipld.Block{}, pre...), pads...)
+	if got := len(carOf(roots, all)); got != target {
+		return Result{Impl: fmt.Sprintf("misaligned:%d", got-target), Args: []string{a[0], a[1], "0"}}
+	}
+	all = append(all, rawCborBlock([]byte{0x18, 0x63}), rawCborBlock([]byte{0x18, 0x64}))
+	body := carOf(roots, all)
+	delivered := -1
+	hdr := map[string][]string{"Content-Type": {carCT}, "Accept": {carCT}}
+	count := func(blks iter.Seq2[ipld.Block, error]) int {
+		n := 0
+		for _, err := range blks {
+			if err != nil {
+				return -2
+			}
+			n++
+		}
+		return n
+	}
+	switch a[1] {
+	case "request":
+		m, err := request.Decode(thttp.NewHTTPRequest(bytes.NewReader(body), hdr))
+		if err != nil {
+			return Result{Impl: "error:" + err.Error(), Oracle: "fail:a well-formed request of " + a[0] + "+ bytes does not decode", Args: []string{a[0], a[1], itoa(len(all))}}
+		}
+		delivered = count(m.Blocks())
+	case "response":
+		m, err := response.Decode(thttp.NewHTTPResponse(200, bytes.NewReader(body), hdr))
+		if err != nil {
+			return Result{Impl: "error:" + err.Error(), Oracle: "fail:a well-formed response of " + a[0] + "+ bytes does not decode", Args: []string{a[0], a[1], itoa(len(all))}}
+		}
+		delivered = count(m.Blocks())
+	default:
+		_, blks, err := car.Decode(bytes.NewReader(body))
+		if err != nil {
+			return Result{Impl: "error:" + err.Error(), Args: []string{a[0], a[1], itoa(len(all))}}
+		}
+		delivered = count(blks)
+	}
+	oracle := "ok"
+	if delivered != len(all) {
+		oracle = fmt.Sprintf("fail:an archive with a section boundary at byte %d is decoded without error to %d of its %d blocks", target, delivered, len(all))
+	}
+	return Result{Impl: fmt.Sprintf("blocks=%d/%d", delivered, len(all)), Oracle: oracle, Args: []string{a[0], a[1], itoa(len(all))}}
 }
